@@ -20,7 +20,7 @@ def check(tier, seed, replay=None):
     run.cov["trusted_base"] = wire.WIRE_TRUSTED
     broken = None
     try:
-        wire.maybe_proof(run, "props/C05.v", ["C05"])
+        wire.maybe_proof(run, "props/C05.v", ["C05", "C05_size"])
     except BrokenTie as e:
         broken = e
     found = False
